@@ -47,7 +47,7 @@ func init() {
 		"the ledger histories with a storage outage: once a store operation of the pool has failed, the next one to three fail as well (a disk that is full stays full for a moment); after every operation that returns the credit sum is unchanged",
 		profile{prop: "C01", oracles: []string{"C01"}, connect: 3, reconnect: 1, update: 12, peer: 1, addNode: 3, withdraw: 2, advance: 6, deposit: 1,
 			minOps: 10, maxOps: 50, minBal: []int64{-999, -999, 0, 50}, storeFaults: true, outage: true})
-	regWorld("c02_billing_faults", 400, 25000,
+	regWorld("c02_billing_faults", 600, 25000,
 		"keep-alives with injected storage errors: a keep-alive that returns an error (other than the low-balance cut-off) must leave every balance as it was - all or nothing",
 		profile{prop: "C02", oracles: []string{"C02F"}, connect: 3, reconnect: 1, update: 14, addNode: 2, advance: 8,
 			minOps: 10, maxOps: 50, minBal: []int64{-999}, storeFaults: true, storeYields: true}) // (yield points: a little time passes between the store calls of one request)
@@ -292,6 +292,10 @@ func runWorldSeq(s *kernel.Sim, p profile) {
 		if p.prop == "C09" {
 			ops = []string{"SetNode", "SetNode", "CheckAndSaveNonce"}
 		}
+		if p.prop == "C02" {
+			// what a keep-alive does most is crediting peers: that is where most of its storage errors land
+			ops = []string{"AddNodeBalance", "AddNodeBalance", "AddNodeBalance", "AddNodeBalance", "UpdateNodePeers", "NodePeers", "GetNodeBalance", "GetNode", "SetNode", "CheckAndSaveNonce"}
+		}
 		w.YS.FailPermille = map[string]int{}
 		for k := 1 + s.Choose("nfaultops", 3); k > 0; k-- {
 			w.YS.FailPermille[ops[s.Choose("faultop", len(ops))]] = []int{50, 150, 400}[s.Choose("faultrate", 3)]
@@ -309,6 +313,11 @@ func runWorldSeq(s *kernel.Sim, p profile) {
 	if p.storeFaults && p.prop == "C09" {
 		// only registrations meet storage errors here
 		d.faultConnectOnly = true
+		w.YS.SetDisarmed(true)
+	}
+	if p.storeFaults && p.prop == "C02" && s.Choose("faultfocus", 2) == 1 {
+		// the one storage error of the run is kept for a keep-alive that has several peers to pay
+		d.faultBigUpdateOnly = true
 		w.YS.SetDisarmed(true)
 	}
 	if p.storeFaults && p.prop == "C07" {
